@@ -143,23 +143,20 @@ def oracle(rep, case, out):
     tgt = O.fl(case['target'])
     if any(b < 0 for b in x['before']) or neg_source(case):
         return      # band integrals are unsigned areas: the post-condition is stated for non-negative flux
-    if case.get('wl') is not None:
-        return      # effstim converts at the bandpass's own pivot, not on the caller's grid: model comparison only
+    xw = ':explicit_wavelengths' if case.get('wl') is not None else ''
     if u in ('photlam', 'photnu'):
         pr = x['photon_rate']
         if 'ok' in pr and abs(pr['ok'][0] - pr['ok'][1]) > 1e-8 * abs(pr['ok'][1]):
-            rep.oracle_fail('normalize:%s:photon_rate' % u, 'photon rate %r vs flat-at-target %r' % tuple(pr['ok']), case, out)
+            rep.oracle_fail('normalize:%s%s:photon_rate' % (u, xw), 'photon rate %r vs flat-at-target %r' % tuple(pr['ok']), case, out)
         return
     if 'err' in pe:
         if pe['err'] in ('PartialOverlap', 'DisjointError', 'SynphotError', 'NaN', 'UndefinedBinset', 'ZeroWavelength'):
             return
         rep.oracle_fail('normalize:%s:post_effstim:%s' % (u, pe['err']), 'cannot observe the normalised spectrum', case, out)
         return
-    if case.get('wl') is not None and u in ('count', 'obmag'):
-        return          # count targets on explicit wavelengths sum flux x width of those wavelengths: model comparison only
     tol = 1e-8 * abs(tgt) + (1e-8 if u in MAGS else 0)
     if abs(pe['ok'] - tgt) > tol:
-        rep.oracle_fail('normalize:%s:target_not_reached' % u, 'effstim of the normalised spectrum is %r, target %r' % (pe['ok'], tgt), case, out)
+        rep.oracle_fail('normalize:%s%s:target_not_reached' % (u, xw), 'effstim of the normalised spectrum is %r, target %r' % (pe['ok'], tgt), case, out)
 
 
 def gen_case(rng, K, thorough):
